@@ -354,19 +354,34 @@ def run_history(fmt: str, eps: int, history: list, inspect_all=False) -> dict:
                 dataset = Dataset(root)
             if kind == "create":
                 before = D.snapshot(root)
-                try:
-                    D.create(root, fmt=fmt, eps=eps)
-                    out["violations"].append(
-                        ("C08", "create-accepted",
-                         "Dataset.create on an existing dataset succeeded"))
-                except DatasetExistsError:
-                    pass
-                except FileExistsError:
-                    pass
-                if D.snapshot(root) != before:
-                    out["violations"].append(
-                        ("C08", "create-changed",
-                         "refused Dataset.create changed the directory"))
+                import os
+                cwd = os.getcwd()
+                # the same location spelled in four ways
+                spellings = [("Path", lambda: root),
+                             ("str", lambda: str(root)),
+                             ("trailing slash", lambda: str(root) + "/"),
+                             ("relative", lambda: root.name)]
+                for sname, spell in spellings:
+                    try:
+                        if sname == "relative":
+                            os.chdir(root.parent)
+                        D.create(spell(), fmt=fmt, eps=eps)
+                        out["violations"].append(
+                            ("C08", "create-accepted",
+                             f"Dataset.create on an existing dataset (path "
+                             f"given as {sname}) succeeded"))
+                    except DatasetExistsError:
+                        pass
+                    except FileExistsError:
+                        pass
+                    finally:
+                        os.chdir(cwd)
+                    if D.snapshot(root) != before:
+                        out["violations"].append(
+                            ("C08", "create-changed",
+                             f"refused Dataset.create (path given as "
+                             f"{sname}) changed the directory"))
+                        break
                 sessions.append([])
             else:
                 try:
